@@ -23,6 +23,10 @@ def main(outdir, ids):
                 continue
             r = {}
             sh('git checkout -- . && git clean -fdq', cwd=wt)
+            # the agents' demos assert that they import the package from their own worktree: point them at this one
+            loc = '/tmp/vn/%s_demo%d.py' % (pid, k)
+            open(loc, 'w').write(open(demo).read().replace('/tmp/wtn/' + pid, wt))
+            demo = loc
             rc, o1 = sh('/venv/bin/python %s' % demo, cwd=wt, env=env, timeout=900)
             r['demo_clean_rc'] = rc
             rc, o = sh('git apply %s' % patch, cwd=wt)
